@@ -613,7 +613,7 @@ func leftOperand(t string) (operand, bool) {
 var leftTypesAssign = []string{"INTEGER", "FLOAT", "STRING", "BOOL", "RTIME", "TIME", "IP", "BACKEND", "REQBACKEND", "ACL", "header"}
 var leftTypesCmp = []string{"INTEGER", "FLOAT", "STRING", "BOOL", "RTIME", "TIME", "IP", "BACKEND", "ACL", "header"}
 var rightTypes = []string{"INTEGER", "FLOAT", "STRING", "BOOL", "RTIME", "TIME", "IP", "BACKEND", "ACL", "header"}
-var forms = []string{"literal", "local", "predefined"}
+var forms = []string{"literal", "local", "notset-local", "predefined"}
 
 // rightOperand returns the operand or ok=false when the (type, form) combination does not exist
 // in VCL (no TIME/IP literal distinct from a string, no local header, no ACL local/predefined).
@@ -654,6 +654,13 @@ func rightOperand(t, form string) (operand, bool) {
 			return operand{t, "declare local var.r IP;\nset var.r = \"10.0.0.1\";", "var.r"}, true
 		case "BACKEND":
 			return operand{t, "declare local var.r BACKEND;\nset var.r = example2;", "var.r"}, true
+		case "ACL":
+			return operand{t, "declare local var.r ACL;\nset var.r = acl1;", "var.r"}, true
+		}
+	case "notset-local":
+		// a declared ACL variable that refers to no ACL yet
+		if t == "ACL" {
+			return operand{t, "declare local var.r ACL;", "var.r"}, true
 		}
 	case "predefined":
 		switch t {
@@ -777,6 +784,14 @@ func gen(g *fw.GenCtx) {
 	for _, c := range opCells() {
 		if terr == nil {
 			c.Ref = tab[c.ID] // "" when the cell is missing from the frozen table
+			if c.Ref == "" {
+				// an ACL held in a local variable is typed like the ACL name itself
+				for _, f := range []string{"/ACL/local", "/ACL/notset-local"} {
+					if strings.HasSuffix(c.ID, f) {
+						c.Ref = tab[strings.TrimSuffix(c.ID, f)+"/ACL/literal"]
+					}
+				}
+			}
 		}
 		all = append(all, c)
 	}
